@@ -52,3 +52,19 @@ def memoise_lark():
 
     Lark._verif_memo = True
     cp.Lark = Lark
+
+
+def prebuild_parsers():
+    """Populate the Lark memo for both tree classes using the library's own constructor
+    arguments, then restore the cold state (CEL_PARSER None).  Used by zygotes whose children
+    run under sys.settrace, where building the LALR tables would cost seconds."""
+    memoise_lark()
+    import celpy.celparser as cp
+    import lark
+    from celpy.evaluation import TranspilerTree
+
+    saved = cp.CELParser.CEL_PARSER
+    for tc in (lark.Tree, TranspilerTree):
+        cp.CELParser.CEL_PARSER = None
+        cp.CELParser(tree_class=tc)
+    cp.CELParser.CEL_PARSER = saved
